@@ -77,6 +77,12 @@ PROPERTIES = {
             {"group": "supervisor", "name": "c07_flag_all_waiters_woken_full", "tiers": ("thorough",), "mem_gb": 16, "covers": ["three waiters pending"],
              "bounds": "as above without the symmetry argument (64 schedules)", "timeout": {"thorough": 3000}},
             {"group": "supervisor", "name": "c07_flag_five_waiters", "tiers": ("thorough",), "mem_gb": 10, "covers": ["five waiters pending", "schedule ran to its end"], "bounds": "5 waiters; 3 free poll slots among waiters 0..=2 (first = waiter 0) then waiters 3 and 4 register (waker list grows past its initial capacity); 16 schedules", "timeout": {"thorough": 3000}},
+            {"group": "jobq", "name": "api_one_call_done_a", "mem_gb": 6, "covers": ["scenario ran to its end"], "bounds": "Job methods 0..10 (path-split): the returned ticket shares the done flag of exactly the LAST control enqueued and the job's gone flag; pending until then; waiter woken"},
+            {"group": "jobq", "name": "api_one_call_done_b", "mem_gb": 6, "covers": ["scenario ran to its end"], "bounds": "Job methods 10..20"},
+            {"group": "jobq", "name": "api_one_call_gone_a", "tiers": ("thorough",), "mem_gb": 6, "covers": ["scenario ran to its end"], "bounds": "methods 0..10, job ends: ticket resolves through gone"},
+            {"group": "jobq", "name": "api_one_call_gone_b", "tiers": ("thorough",), "mem_gb": 6, "covers": ["scenario ran to its end"], "bounds": "methods 10..20, job ends"},
+            {"group": "jobq", "name": "api_one_call_dead_a", "tiers": ("thorough",), "mem_gb": 6, "covers": ["scenario ran to its end"], "bounds": "dead job: already-resolved ticket, nothing enqueued"},
+            {"group": "jobq", "name": "api_one_call_dead_b", "tiers": ("thorough",), "mem_gb": 6, "covers": ["scenario ran to its end"], "bounds": "dead job, methods 10..20"},
             {"group": "supervisor", "name": "c07_ticket_one_task_two_tickets", "mem_gb": 6, "covers": ["job ends while one of the two tickets is outstanding", "schedule ran to its end"], "bounds": "one waker polling two tickets of one job in either order (join!-style), either control completes first, then the other completes or the job ends (8 schedules)"},
             {"group": "supervisor", "name": "c07_ticket_waker_replacement", "covers": ["schedule ran to its end"], "bounds": "one ticket polled under waker X, then Y (, then X again); control flag or job-gone flag raised (4 schedules)"},
             {"group": "supervisor", "name": "c07_ticket_clone_first_control_done_a", "mem_gb": 6, "covers": ["schedule ran to its end"], "bounds": "3 waiters (2 clones + 1 other ticket of the job), 3 poll slots; first = a clone of the ticket; second slot: waiter 0 or 1; the control's own flag is raised (8 schedules, path-split)"},
@@ -90,9 +96,9 @@ PROPERTIES = {
         ],
     },
     "C18": {
-        "bounds": "Program::Exec only: program (1 byte) + 0..=3 args of 0..=2 bytes; every byte symbolic over ASCII 0x01..=0x7f (all shell metacharacters, whitespace, quotes, control characters); one concrete multi-byte argument; all 8 spawn-option combinations (symbolic). Counts/lengths are path-split, bytes and options solver-decided.",
-        "outside": "the Program::Shell branch of to_spawnable (measured: one concrete shell scenario = 31M SAT variables / 142M clauses / 14 min, OOM at 3 scenarios; see DESIGN), what tokio/std/the kernel do with the argv (exec fidelity, pgid/sid), strings longer than 2 bytes, NUL bytes, spawn-hook env/cwd visibility in a real child, CLI argument interpretation",
-        "trusted": ["Kani 0.68 / CBMC 6.11 / CaDiCaL", "models/tokio process::Command (records program/args verbatim)", "models/process-wrap (records wrapper kinds)"],
+        "bounds": "Program::Shell: 0..=2 options, program option absent/borrowed/owned, 0..=2 extra args, three length patterns (one in quick), all bytes symbolic ASCII; CLI interpret_command_args: 1-2 words of 1-2 bytes, --no-shell / --shell=none / --shell=sh / --shell=''; Program::Exec: program (1 byte) + 0..=3 args of 0..=2 bytes; every byte symbolic over ASCII 0x01..=0x7f (all shell metacharacters, whitespace, quotes, control characters); one concrete multi-byte argument; all 8 spawn-option combinations (symbolic). Counts/lengths are path-split, bytes and options solver-decided.",
+        "outside": "shells found through $SHELL (getenv FFI) and multi-word --shell values in the CLI, what tokio/std/the kernel do with the argv (exec fidelity, pgid/sid), strings longer than 2 bytes, NUL bytes, spawn-hook env/cwd visibility in a real child, CLI argument interpretation",
+        "trusted": ["Kani 0.68 / CBMC 6.11 / CaDiCaL", "models/tokio process::Command (records program/args verbatim)", "models/process-wrap (records wrapper kinds)", "stub MaybeUninit::write -> ptr::write (same semantics, avoids a whole-union store)", "hook watchexec_cli::verif (cfg(kani)): baseline Args constructors + wrappers of private fns", "patched copy of backtrace 0.3.74 (one `unreachable!` spelled core::unreachable!, needed to compile under kani-compiler)"],
         "assumptions": ["tokio::process::Command::arg/args append one argv element per call/item (documented std behaviour)"],
         "harnesses": [
             {"group": "supervisor", "name": "c18_exec_argv_exact", "mem_gb": 8, "covers": ["three args, first empty", "argument ' *'", "first argument equals the program", "last argument ends in a newline"], "bounds": "0..=3 args x 3 length patterns (every position sees every length 0..=2) x symbolic bytes x symbolic options"},
@@ -102,6 +108,199 @@ PROPERTIES = {
             {"group": "supervisor", "name": "c18_exec_full_3args_len0", "tiers": ("thorough",), "mem_gb": 10, "bounds": "3 arguments, first empty, 9 length combinations; bytes and options symbolic", "timeout": {"thorough": 3600}},
             {"group": "supervisor", "name": "c18_exec_full_3args_len1", "tiers": ("thorough",), "mem_gb": 10, "bounds": "3 arguments, first 1 byte, 9 combinations; bytes and options symbolic", "timeout": {"thorough": 3600}},
             {"group": "supervisor", "name": "c18_exec_full_3args_len2", "tiers": ("thorough",), "mem_gb": 10, "bounds": "3 arguments, first 2 bytes, 9 combinations; bytes and options symbolic", "timeout": {"thorough": 3600}},
+            {"group": "shell", "module": "c18shell", "name": "c18_shell_no_progopt", "mem_gb": 5, "covers": ["two options and two extra arguments", "no options and no extra arguments", "command 'a b'"],
+             "bounds": "Program::Shell without program option: 0..=2 options (lengths 2,1) x 0..=2 extra args (lengths 2,0: an empty argument included), command of 3 bytes; 9 shapes path-split, every byte symbolic ASCII 0x01..=0x7f, 3 spawn options symbolic; stub: MaybeUninit::write -> ptr::write"},
+            {"group": "shell", "module": "c18shell", "name": "c18_shell_borrowed_progopt", "mem_gb": 8, "covers": ["two options and two extra arguments", "no options and no extra arguments", "command 'a b'"],
+             "bounds": "as c18_shell_no_progopt with a 2-byte Cow::Borrowed program option (symbolic bytes)"},
+            {"group": "shell", "module": "c18shell", "name": "c18_shell_owned_progopt", "mem_gb": 8, "covers": ["two options and two extra arguments", "no options and no extra arguments", "command 'a b'"],
+             "bounds": "as c18_shell_no_progopt with a 2-byte Cow::Owned program option (symbolic bytes)"},
+            {"group": "shell", "module": "c18shell", "name": "c18_shell_order_one_of_each", "covers": ["command 'a b'"],
+             "bounds": "one shape: 1 option, borrowed program option, 3-byte command, 1 extra arg; all bytes and spawn options symbolic (small enough that an ordering change is decided rather than running out of memory)"},
+            {"group": "shell", "module": "c18shell", "name": "c18_shell_new_helper", "covers": ["Shell::new with two extra arguments"],
+             "bounds": "Shell::new(name): no options, program option -c; 0..=2 extra args"},
+            {"group": "shell", "module": "c18shell", "name": "c18_shell_lens_b_no_progopt", "tiers": ("thorough",), "mem_gb": 5, "covers": ["empty command string before two extra arguments"], "bounds": "second length pattern: options (0,2), empty command, args (1,2); 9 shapes"},
+            {"group": "shell", "module": "c18shell", "name": "c18_shell_lens_b_borrowed_progopt", "tiers": ("thorough",), "mem_gb": 8, "covers": ["empty command string before two extra arguments"], "bounds": "second length pattern, 1-byte borrowed program option"},
+            {"group": "shell", "module": "c18shell", "name": "c18_shell_lens_b_owned_progopt", "tiers": ("thorough",), "mem_gb": 8, "covers": ["empty command string before two extra arguments"], "bounds": "second length pattern, 1-byte owned program option"},
+            {"group": "shell", "module": "c18shell", "name": "c18_shell_lens_c_no_progopt", "tiers": ("thorough",), "mem_gb": 5, "bounds": "third length pattern: options (1,0), 1-byte command, args (0,1); 9 shapes"},
+            {"group": "shell", "module": "c18shell", "name": "c18_shell_lens_c_borrowed_progopt", "tiers": ("thorough",), "mem_gb": 8, "bounds": "third length pattern, empty borrowed program option, 2-byte command"},
+            {"group": "shell", "module": "c18shell", "name": "c18_shell_lens_c_owned_progopt", "tiers": ("thorough",), "mem_gb": 8, "bounds": "third length pattern, empty owned program option"},
+            {"group": "cli", "name": "c18_cli_exec", "mem_gb": 4, "covers": ["two words via --shell=none, space and quote", "one one-byte word via --no-shell"],
+             "bounds": "cli::config::interpret_command_args without a shell: 4 word shapes via --no-shell + 2 via --shell=none (path-split), 1-2 words of 1-2 symbolic ASCII bytes, wrap mode symbolic; stubs: catch_unwind, miette capture_handler"},
+            {"group": "cli", "name": "c18_cli_shell_1w2", "mem_gb": 4, "covers": ["shell command built, metacharacters kept"], "bounds": "interpret_command_args with --shell=sh: one 2-byte word; wrap mode symbolic"},
+            {"group": "cli", "name": "c18_cli_shell_2w12", "mem_gb": 4, "covers": ["shell command built, metacharacters kept"], "bounds": "--shell=sh: two words of 1 and 2 bytes joined by exactly one space"},
+            {"group": "cli", "name": "c18_cli_shell_2w21", "mem_gb": 4, "covers": ["shell command built, metacharacters kept"], "bounds": "--shell=sh: two words of 2 and 1 bytes"},
+            {"group": "cli", "name": "c18_cli_empty_shell", "mem_gb": 4, "covers": ["empty shell rejected"], "bounds": "--shell='' must be an error"},
+        ],
+    },
+
+    "C05": {
+        "bounds": "EventsArgs::normalise only: initial mode (4 values), --restart, --signal (None / 7 named / Custom over all i32), emit mode (6), --no-environment, only_emit_events, stdin_quit, postpone: all symbolic in one query",
+        "outside": "the on-busy policy itself (closure in cli::config::make_config driving Job controls: async, not encodable), --postpone / start-up run, stdin_quit with --watch-file=- (PathBuf comparison)",
+        "trusted": ["Kani 0.68 / CBMC 6.11 / CaDiCaL", "hook watchexec_cli::verif (cfg(kani)): baseline Args constructors + wrappers", "stub std::panic::catch_unwind -> Ok(f())", "patched copy of backtrace 0.3.74 (one macro call respelled so that it compiles under kani-compiler)"],
+        "assumptions": ["the baseline EventsArgs/CommandArgs/FilteringArgs values of the hook are what clap yields for an empty command line (clap parsing is not encoded)"],
+        "harnesses": [
+            {"group": "cli", "name": "c05_events_normalise", "mem_gb": 5, "covers": ["custom signal wins over restart"], "bounds": "all flag / mode / signal combinations (symbolic)"},
+        ],
+    },
+    "C12": {
+        "bounds": "FilteringArgs::normalise only (polled once, must complete): the five no-* flags, --ignore-nothing and --no-meta symbolic; file lists, filter programs empty; project origin and workdir '/'",
+        "outside": "what dirs::ignores / WatchexecFilterer::new do with the flags (tokio::fs discovery, glob engine), explicit --ignore-file / --filter-file contents, clap parsing",
+        "trusted": ["Kani 0.68 / CBMC 6.11 / CaDiCaL", "hook watchexec_cli::verif (cfg(kani))", "stubs: catch_unwind, miette::eyreish::capture_handler (kani-compiler ICE work-around), dunce::canonicalize -> identity"],
+        "assumptions": ["baseline FilteringArgs of the hook = clap's defaults"],
+        "harnesses": [
+            {"group": "cli", "name": "c12_filtering_normalise_flags", "mem_gb": 9, "covers": ["ignore-nothing from all-false"], "timeout": {"quick": 1500, "thorough": 3000},
+             "bounds": "2^7 flag combinations (symbolic)"},
+        ],
+    },
+    "C02": {
+        "bounds": "Priority: symbolic triple over the whole enumeration (bounded by variant_count); Event::is_empty: 0..=2 tags of 5 kinds (31 shapes), payload integers symbolic",
+        "outside": "the debounce window itself: lib::action::worker::throttle_collect (async; measured: one poll of the real future did not finish symbolic execution in 15-21 min with every cut applied, see DESIGN section 5)",
+        "trusted": ["Kani 0.68 / CBMC 6.11 / CaDiCaL", "models/tracing no-op macros"],
+        "assumptions": [],
+        "harnesses": [
+            {"group": "lib", "name": "c02_priority_total_order", "covers": ["strictly-ascending-triple", "urgent-vs-low"], "bounds": "all triples of priorities"},
+            {"group": "lib", "name": "c02_event_is_empty", "covers": ["no-tags", "two-tags-internal"], "bounds": "0..=2 tags of 5 cheap kinds, empty metadata (fixed hasher)"},
+        ],
+    },
+    "C13": {
+        "bounds": "Changeable / ChangeableFn / ChangeableFilterer and the Config setters, one operation sequence per harness (2-3 replaces, nested replace from inside call), stored values symbolic; the change signal is the real tokio::sync::Notify (one registered listener)",
+        "outside": "the fs worker's read-apply-wait loop and ConfigWatched::next (async), watcher registration, failures of watch/unwatch, real thread interleavings (RwLock executed sequentially; a mutant that holds the read lock across the handler call makes the harness inconclusive - RwLock::write spins on an unsupported intrinsic - not a pass)",
+        "trusted": ["Kani 0.68 / CBMC 6.11 / CaDiCaL", "models/tracing no-op macros", "hook watchexec::verif::config_change_signal (cfg(kani))", "stub Box::write -> ptr::write (same semantics; Arc::default goes through a MaybeUninit union store otherwise)"],
+        "assumptions": [],
+        "harnesses": [
+            {"group": "lib", "name": "c13_changeable_last_write_wins", "covers": ["distinct-values"], "bounds": "u64 and Duration values symbolic; get after replace, clones share state"},
+            {"group": "lib", "name": "c13_changeablefn_calls_current_once", "covers": ["distinct-closures"], "bounds": "call reaches the installed closure exactly once; after replace only the new one"},
+            {"group": "lib", "name": "c13_replace_from_inside_call", "covers": ["reconfigured-from-inside"], "bounds": "handler replaces itself from inside call, nested twice: no deadlock, invocation in progress unaffected"},
+            {"group": "lib", "name": "c13_config_filterer_swap", "covers": ["rejects", "errors"], "bounds": "Config::filterer then check_event: verdict Ok(true)/Ok(false)/Err symbolic"},
+            {"group": "lib", "name": "c13_config_throttle", "covers": ["throttle"], "bounds": "symbolic Duration stored exactly; listener on the change signal woken"},
+            {"group": "lib", "name": "c13_config_keyboard_events", "covers": ["keyboard-on"], "bounds": "symbolic bool"},
+            {"group": "lib", "name": "c13_config_file_watcher_poll", "covers": ["watcher-poll"], "bounds": "Watcher::Poll(symbolic interval)"},
+            {"group": "lib", "name": "c13_config_file_watcher_native", "covers": ["watcher-native"], "bounds": "Watcher::Native"},
+            {"group": "lib", "name": "c13_config_on_error", "covers": ["on-error"], "bounds": "handler replaced, listener woken"},
+            {"group": "lib", "name": "c13_config_direct_write_no_signal", "covers": ["direct-write"], "bounds": "direct Changeable write does not signal (documented)"},
+            {"group": "lib", "name": "c13_config_pathset", "covers": ["two-paths", "no-paths"], "bounds": "0..=2 two-byte paths stored in order, byte-compared"},
+        ],
+    },
+    "C15": {
+        "bounds": "the body of error_hook's loop (ErrorHook::new, handler.call, ErrorHook::handle_crit) for one runtime error, 8 RuntimeError variants without io/notify payloads (signal numbers and message bytes symbolic) x handler behaviours {ignore, elevate, critical(Exit), critical(other), move then critical, keep the hook alive}; two successive errors in thorough",
+        "outside": "the async delivery loops (error channel, worker / fs worker send sites), RuntimeError variants carrying io::Error / notify::Error, the main task's reaction to the returned critical error, a hook kept alive and made critical later (measured OOM)",
+        "trusted": ["Kani 0.68 / CBMC 6.11 / CaDiCaL", "models/tracing no-op macros", "hook watchexec::verif::{hook_new, hook_crit_cell, hook_handle_crit} (cfg(kani))", "stub Box::write -> ptr::write"],
+        "assumptions": ["run_body in the harness is the loop body of lib::watchexec::error_hook verbatim (the async loop around it is not encoded)"],
+        "harnesses": [
+            {"group": "lib", "name": "c15_elevate_signal", "covers": ["elevate"], "bounds": "elevate(), RuntimeError::UnsupportedSignal(symbolic signal)"},
+            {"group": "lib", "name": "c15_critical_exit", "covers": ["critical-exit"], "bounds": "critical(CriticalError::Exit) on InternalSupervisor(3 symbolic bytes)"},
+            {"group": "lib", "name": "c15_outstanding_ref", "covers": ["outstanding-ref"], "bounds": "handler keeps the hook alive"},
+            {"group": "lib", "name": "c15_ignore_a", "covers": ["ignore"], "mem_gb": 6, "bounds": "handler ignores; 4 variants (path-split)"},
+            {"group": "lib", "name": "c15_ignore_b", "tiers": ("thorough",), "covers": ["ignore"], "mem_gb": 6, "bounds": "handler ignores; the other 4 variants"},
+            {"group": "lib", "name": "c15_elevate_no_commands", "tiers": ("thorough",), "covers": ["elevate"], "bounds": "elevate(), NoCommands"},
+            {"group": "lib", "name": "c15_elevate_dead_on_arrival", "tiers": ("thorough",), "covers": ["elevate"], "bounds": "elevate(), ProcessDeadOnArrival"},
+            {"group": "lib", "name": "c15_elevate_empty_command", "tiers": ("thorough",), "covers": ["elevate"], "bounds": "elevate(), CommandShellEmptyCommand"},
+            {"group": "lib", "name": "c15_elevate_keyboard", "tiers": ("thorough",), "covers": ["elevate"], "bounds": "elevate(), KeyboardWatcher"},
+            {"group": "lib", "name": "c15_elevate_lock_held", "tiers": ("thorough",), "covers": ["elevate"], "bounds": "elevate(), HandlerLockHeld"},
+            {"group": "lib", "name": "c15_elevate_supervisor", "tiers": ("thorough",), "covers": ["elevate"], "bounds": "elevate(), InternalSupervisor"},
+            {"group": "lib", "name": "c15_elevate_handler", "tiers": ("thorough",), "covers": ["elevate"], "bounds": "elevate(), Handler{ctx, err}"},
+            {"group": "lib", "name": "c15_critical_other", "tiers": ("thorough",), "covers": ["critical-other"], "bounds": "critical(ErrorChannelSend(..))"},
+            {"group": "lib", "name": "c15_moved_then_critical", "tiers": ("thorough",), "covers": ["moved-then-critical"], "mem_gb": 8, "bounds": "hook moved into a Box, then critical()"},
+            {"group": "lib", "name": "c15_two_errors", "tiers": ("thorough",), "covers": ["second-elevated"], "mem_gb": 8, "bounds": "two successive errors: first ignored, second elevated"},
+        ],
+    },
+
+    "C10": {
+        "bounds": "send side: each of the 20 public ticket-returning Job methods alone (path-split), and two successive calls over 5 representative methods (stop_with_signal, restart_with_signal, to_wait, delete_now, run: 25 ordered pairs); receive side: one poll of the real PriorityReceiver::recv per harness for the queue/timer states that are decided before its select! (urgent/high pending, expired timer), tags symbolic",
+        "outside": "every recv scenario that reaches tokio::select! (only normal controls pending, armed timer with nothing urgent/high, wake-up after Pending): measured - no symbolic-execution result in 330-400 s per scenario; the job task's use of the received control (task.rs); concurrent senders on real threads; all 400 method pairs",
+        "trusted": ["Kani 0.68 / CBMC 6.11 / CaDiCaL", "models/tokio (mpsc ring, wakers, virtual clock)", "hooks watchexec_supervisor::verif::{job_from_parts, priority_new, ...} (cfg(kani))"],
+        "assumptions": ["tokio's unbounded mpsc is FIFO per channel (the model's documented contract)"],
+        "harnesses": [
+            {"group": "jobq", "name": "api_one_call_done_a", "mem_gb": 6, "covers": ["scenario ran to its end"], "bounds": "methods 0..10, controls complete in order; " + 'real Job API against the model mpsc queues: signal symbolic (7 first-class or Custom(any i32)), grace any Duration; the method is path-split; every queue is drained with try_recv and compared with the exact expected control list'},
+            {"group": "jobq", "name": "api_one_call_done_b", "mem_gb": 6, "covers": ["scenario ran to its end"], "bounds": "methods 10..20, controls complete in order"},
+            {"group": "jobq", "name": "api_one_call_gone_a", "tiers": ("thorough",), "mem_gb": 6, "covers": ["scenario ran to its end"], "bounds": "methods 0..10, the job ends instead (gone raised)"},
+            {"group": "jobq", "name": "api_one_call_gone_b", "tiers": ("thorough",), "mem_gb": 6, "covers": ["scenario ran to its end"], "bounds": "methods 10..20, gone raised"},
+            {"group": "jobq", "name": "api_one_call_dead_a", "tiers": ("thorough",), "mem_gb": 6, "covers": ["scenario ran to its end"], "bounds": "methods 0..10 on a dead job: nothing enqueued, ticket ready"},
+            {"group": "jobq", "name": "api_one_call_dead_b", "tiers": ("thorough",), "mem_gb": 6, "covers": ["scenario ran to its end"], "bounds": "methods 10..20 on a dead job"},
+            {"group": "jobq", "name": "api_two_calls_in_order_1", "mem_gb": 6, "covers": ["scenario ran to its end"], "bounds": "restart_with_signal then any of the 5 representatives; same-queue calls stay in call order, each ticket only resolved by its own last control"},
+            {"group": "jobq", "name": "api_two_calls_in_order_3", "mem_gb": 6, "covers": ["scenario ran to its end"], "bounds": "delete_now then any of the 5 representatives"},
+            {"group": "jobq", "name": "api_two_calls_in_order_0", "tiers": ("thorough",), "mem_gb": 6, "covers": ["scenario ran to its end"], "bounds": "stop_with_signal then any representative"},
+            {"group": "jobq", "name": "api_two_calls_in_order_2", "tiers": ("thorough",), "mem_gb": 6, "covers": ["scenario ran to its end"], "bounds": "to_wait then any representative"},
+            {"group": "jobq", "name": "api_two_calls_in_order_4", "tiers": ("thorough",), "mem_gb": 6, "covers": ["scenario ran to its end"], "bounds": "run then any representative"},
+            {"group": "jobq", "name": "api_two_calls_reverse_0", "tiers": ("thorough",), "mem_gb": 6, "covers": ["scenario ran to its end"], "bounds": "as in_order_0, controls complete in reverse order"},
+            {"group": "jobq", "name": "api_two_calls_reverse_1", "tiers": ("thorough",), "mem_gb": 6, "covers": ["scenario ran to its end"], "bounds": "as in_order_1, reverse completion"},
+            {"group": "jobq", "name": "api_two_calls_reverse_2", "tiers": ("thorough",), "mem_gb": 6, "covers": ["scenario ran to its end"], "bounds": "as in_order_2, reverse completion"},
+            {"group": "jobq", "name": "api_two_calls_reverse_3", "tiers": ("thorough",), "mem_gb": 6, "covers": ["scenario ran to its end"], "bounds": "as in_order_3, reverse completion"},
+            {"group": "jobq", "name": "api_two_calls_reverse_4", "tiers": ("thorough",), "mem_gb": 6, "covers": ["scenario ran to its end"], "bounds": "as in_order_4, reverse completion"},
+            {"group": "jobq", "name": "api_two_calls_gone_a", "tiers": ("thorough",), "mem_gb": 8, "covers": ["scenario ran to its end"], "bounds": "first call in {stop_with_signal, restart_with_signal}, job ends"},
+            {"group": "jobq", "name": "api_two_calls_gone_b", "tiers": ("thorough",), "mem_gb": 8, "covers": ["scenario ran to its end"], "bounds": "first call in {to_wait, delete_now, run}, job ends"},
+            {"group": "jobq", "name": "api_two_calls_dead", "tiers": ("thorough",), "mem_gb": 8, "covers": ["scenario ran to its end"], "bounds": "two calls on a dead job"},
+            {"group": "jobq", "name": "recv_urgent_beats_high_and_normal", "covers": ["scenario ran to its end"], "bounds": "urgent, high and normal each hold one control: recv returns the urgent one, others untouched"},
+            {"group": "jobq", "name": "recv_high_beats_normal", "covers": ["scenario ran to its end"], "bounds": "high and normal pending: the high one first"},
+            {"group": "jobq", "name": "recv_urgent_fifo", "covers": ["scenario ran to its end"], "bounds": "two urgent controls, two successive recv calls: send order"},
+            {"group": "jobq", "name": "recv_armed_timer_urgent_passes", "covers": ["scenario ran to its end"], "bounds": "armed (not expired) stop / restart timer, urgent pending: delivered, timer kept"},
+            {"group": "jobq", "name": "recv_armed_timer_high_passes", "covers": ["scenario ran to its end"], "bounds": "armed timer, high pending: delivered, timer kept"},
+            {"group": "jobq", "name": "recv_expired_stop_timer_first", "covers": ["scenario ran to its end"], "bounds": "expired stop timer (deadline == now and < now) with urgent+high+normal queued: forced Stop with the timer's flag first, timer cleared, queues untouched"},
+            {"group": "jobq", "name": "recv_expired_restart_timer_first", "covers": ["scenario ran to its end"], "bounds": "expired restart timer: ContinueTryGracefulRestart with the timer's flag first"},
+        ],
+    },
+    "C06": {
+        "bounds": "Timer::stop / Timer::restart with grace seconds in {0, 1, 3600, u32::MAX} x symbolic nanoseconds (and any u32 seconds against the model's Instant arithmetic), creation time t0 < 2^62 ns and query time t1 >= t0 symbolic; recv with an armed or expired timer (one poll, concrete times); restart_with_signal / stop_with_signal / try_restart_with_signal enqueue exactly the documented controls with signal and grace unchanged",
+        "outside": "everything the job task does with these controls (signal delivery, kill at expiry, holding back normal controls across polls, exactly-one respawn): supervisor::job::task is async and out of reach (DESIGN section 5); recv scenarios that reach select! (armed timer with only normal controls queued: no result in 400 s)",
+        "trusted": ["Kani 0.68 / CBMC 6.11 / CaDiCaL", "models/tokio virtual clock and Instant", "hooks Timer::verif_{is_past,to_control,to_sleep} (cfg(kani))"],
+        "assumptions": ["tokio::time::Instant arithmetic = the model's u64 nanosecond arithmetic"],
+        "harnesses": [
+            {"group": "jobq", "name": "timer_deadline_and_forced_control", "mem_gb": 5, "covers": ["one nanosecond before the deadline", "exactly at the deadline", "after the deadline", "zero grace"], "bounds": "deadline = t0 + grace exactly (independent u64 arithmetic); not past before it, past from it on; forced control = Stop / ContinueTryGracefulRestart carrying the timer's own flag"},
+            {"group": "jobq", "name": "timer_any_grace", "covers": ["zero grace"], "bounds": "any u32 seconds + symbolic nanoseconds"},
+            {"group": "jobq", "name": "recv_armed_timer_urgent_passes", "covers": ["scenario ran to its end"], "bounds": "see C10"},
+            {"group": "jobq", "name": "recv_armed_timer_high_passes", "covers": ["scenario ran to its end"], "bounds": "see C10"},
+            {"group": "jobq", "name": "recv_expired_stop_timer_first", "covers": ["scenario ran to its end"], "bounds": "see C10"},
+            {"group": "jobq", "name": "recv_expired_restart_timer_first", "covers": ["scenario ran to its end"], "bounds": "see C10"},
+            {"group": "jobq", "name": "api_one_call_done_a", "mem_gb": 6, "covers": ["scenario ran to its end"], "bounds": "includes stop_with_signal / restart_with_signal / try_restart_with_signal: [GracefulStop{signal,grace}, Start] etc. on the normal queue"},
         ],
     },
 }
+
+# ---- C19 name leg (group `signals`): one harness per table row / spelling family, generated ----
+_SIGS = ["hup", "int", "quit", "ill", "trap", "abrt", "bus", "fpe", "kill", "usr1", "segv", "usr2", "pipe", "alrm", "term", "stkflt",
+         "chld", "cont", "stop", "tstp", "ttin", "ttou", "urg", "xcpu", "xfsz", "vtalrm", "prof", "winch", "io", "pwr", "sys"]
+_Q_FROMSTR = {"hup", "int", "quit", "kill", "usr1", "usr2", "term", "stop", "vtalrm", "io"}
+_Q_UNIX = {"kill", "stop"}
+_ROW = "one signal-table row: NAME, SIGNAME and the decimal number (path-split), letter case of every letter symbolic (u16 mask); stub alloc::fmt::format -> String::with_capacity(16) + the real core::fmt::write (exact text; the real one allocates a symbolic capacity and runs out of memory)"
+
+
+def _t(quick):
+    return {} if quick else {"tiers": ("thorough",)}
+
+
+_C19N = []
+for _s in _SIGS:
+    _C19N.append(dict({"group": "signals", "module": "c19names", "name": f"c19_name_fromstr_{_s}", "mem_gb": 5,
+                       "covers": ["first scenario reached in a non-canonical letter case"] + (["fromstr: a Windows control name took precedence over the unix short name"] if _s == "stop" else []),
+                       "bounds": "<Signal as FromStr>::from_str on " + _ROW}, **_t(_s in _Q_FROMSTR)))
+for _s in _SIGS:
+    _C19N.append(dict({"group": "signals", "module": "c19names", "name": f"c19_name_unix_{_s}", "mem_gb": 6,
+                       "covers": ["first scenario reached in a non-canonical letter case"] + (["unix: number spelling parsed"] if _s == "kill" else []),
+                       "bounds": "Signal::from_unix_str on " + _ROW}, **_t(_s in _Q_UNIX)))
+_C19N.append({"group": "signals", "module": "c19win", "name": "c19_win_names_direct", "mem_gb": 5, "covers": ["first control name reached in a non-canonical letter case", "last control name parsed in a non-canonical letter case"],
+              "bounds": "from_windows_str on all 13 documented control names, every letter case"})
+for _n, _q in (("ctrl_close", False), ("close_ctrl_break", False), ("break", False), ("ctrl_c", False), ("c_kill", True), ("sigkill_force_stop", False), ("stop", True)):
+    _C19N.append(dict({"group": "signals", "module": "c19win", "name": f"c19_win_fromstr_{_n}", "mem_gb": 5, "covers": ["first control name reached in a non-canonical letter case"],
+                       "bounds": "FromStr on the named Windows control names, every letter case: the documented signal (control names win over unix short names)"}, **_t(_q)))
+for _n in ("1_5", "6_10"):
+    _C19N.append({"group": "signals", "module": "c19win", "name": f"c19_win_total_len_{_n}", "mem_gb": 4, "covers": ["first length reached"],
+                  "bounds": "EVERY ASCII string (bytes < 0x80) of each length in the range: from_windows_str is Ok exactly for the 13 names in any case, never panics"})
+for _l in range(1, 10):
+    _C19N.append(dict({"group": "signals", "module": "c19total", "name": f"c19_total_unix_len{_l}", "mem_gb": 6, "covers": ["a string that spells a signal"],
+                       "bounds": f"EVERY ASCII string of length {_l}: from_unix_str is Ok exactly for NAME / SIGNAME (any case) / [+-]?digits in 1..=31, with that signal; never panics"}, **_t(_l == 3)))
+for _l in range(1, 11):
+    _C19N.append(dict({"group": "signals", "module": "c19total", "name": f"c19_total_fromstr_len{_l}", "mem_gb": 7, "covers": ["a string that spells a signal"],
+                       "bounds": f"EVERY ASCII string of length {_l} through FromStr (Windows names first)"}, **_t(_l == 4)))
+for _n in ("hup_kill", "int_quit", "term_usr1", "usr2"):
+    _C19N.append({"group": "signals", "module": "c19display", "name": f"c19_display_first_{_n}", "mem_gb": 7, "covers": ["first-class display form produced"],
+                  "bounds": "real to_string of the named first-class signals equals SIGxxx byte for byte, and parses back (FromStr) to the same OS signal"})
+for _n, _q in (("1_3", False), ("4_6", False), ("7_9", True), ("10_12", False), ("13_15", False), ("16_18", False), ("19_21", False), ("22_24", False), ("25_27", False), ("28_30", False), ("31", True)):
+    _C19N.append(dict({"group": "signals", "module": "c19display", "name": f"c19_display_custom_{_n}", "mem_gb": 8, "covers": ["custom display form produced"],
+                       "bounds": "Custom(n) for the n in the name (concrete per path): text is the decimal number and parses back to OS signal n"}, **_t(_q)))
+for _n, _q in (("0_32_neg1", True), ("64_99_100", False), ("max_min", False)):
+    _C19N.append(dict({"group": "signals", "module": "c19display", "name": f"c19_display_outside_{_n}", "mem_gb": 8, "covers": ["custom display form produced"],
+                       "bounds": "Custom(n) for non-signal numbers: text is the number, to_nix is None, parse is Err without panic"}, **_t(_q)))
+PROPERTIES["C19"]["harnesses"] += _C19N
+PROPERTIES["C19"]["bounds"] += "; names: all 31 Linux signals x {NAME, SIGNAME, number} x every letter case through from_unix_str and FromStr (10 + 2 rows in quick, all 62 in thorough); the 13 Windows control names in every case; every ASCII string of length 1..=9 (from_unix_str) / 1..=10 (FromStr, from_windows_str) decided against the documented grammar; Display of the 7 first-class signals, Custom(1..=31) and 8 non-signal numbers, re-parsed"
+PROPERTIES["C19"]["outside"] = "non-ASCII input, strings longer than 10 bytes, Custom numbers other than the listed ones in Display, the text of SignalParseError, --map-signal's FROM:TO splitting (clap value parser), Windows branches of Display"
+PROPERTIES["C19"]["trusted"] += ["nix 0.29 signal name table as compiled", "stub alloc::fmt::format -> with_capacity(16) + core::fmt::write (same text)"]
